@@ -72,4 +72,7 @@ if __name__ == "__main__":
     if args and args[0] == "--round2":
         prefix, tag = "seed2", "2"
         args = args[1:]
+    if args and args[0] == "--round3":
+        prefix, tag = "seed3", "3"
+        args = args[1:]
     main(args or [f"C{i:02d}" for i in range(1, 21)], prefix, tag)
